@@ -431,7 +431,7 @@ func (r *Runner) checkHint() {
 		return
 	}
 	type ent struct {
-		key                    string
+		key                   string
 		fid, block, off, size uint32
 	}
 	want := map[ent]int{}
